@@ -60,7 +60,7 @@ Lemma entry_pending (s : fstate) mode m : pending (processExtendedGcodeEntry s m
 Proof. unfold entry, processExtendedGcodeEntry. destruct mode; cbn; try reflexivity. destruct (assoc (ccode m) (pending s)); reflexivity. Qed.
 
 Definition merge_args (old : list witem) (ws : list witem) : list witem :=
-  fold_left (fun acc w => dict_set (fst w) (snd w) acc) ws old.
+  fold_left (fun acc w => if String.eqb (fst w) "" then acc else dict_set (fst w) (snd w) acc) ws old.
 
 Lemma entry_exclude P m : entry P XExclude m = P.
 Proof. reflexivity. Qed.
